@@ -443,6 +443,9 @@ def calc_n_cyc_array_w_power_law(values, a_ref, b, cut_off=0.01):
     array_like
     """
     from scipy.interpolate import interp1d
+    values = np.asarray(values, dtype=float)
+    if hasattr(b, '__len__'):
+        b = np.asarray(b, dtype=float)
     peak_indices = eqsig.fns.peaks_and_crossings.get_switched_peak_array_indices(values)
     csr_peaks = np.abs(np.take(values, peak_indices))
     below_cut_off = csr_peaks < cut_off * np.max(np.abs(values))
@@ -471,6 +474,9 @@ def calc_cyc_amp_array_w_power_law(values, n_cyc, b):
     :param b:
     :return:
     """
+    values = np.asarray(values, dtype=float)
+    if hasattr(b, '__len__'):
+        b = np.asarray(b, dtype=float)
     a1_peak_inds_end = eqsig.fns.peaks_and_crossings.get_switched_peak_array_indices(values)
     a1_csr_peaks_end = np.abs(np.take(values, a1_peak_inds_end))
     csr_peaks_s1 = np.zeros_like(values)
@@ -520,6 +526,8 @@ def calc_cyc_amp_combined_arrays_w_power_law(values0, values1, n_cyc, b):
     -------
     array_like
     """
+    values0 = np.asarray(values0, dtype=float)
+    values1 = np.asarray(values1, dtype=float)
     peak_inds_a0 = eqsig.fns.peaks_and_crossings.get_switched_peak_array_indices(values0)
     csr_peaks_a0 = np.abs(np.take(values0, peak_inds_a0))
 
